@@ -1,4 +1,4 @@
-(* Props/C02Split.v — data-path half of property C02 ("five-stage pipeline = single-cycle"):
+(* Props/C02.v — data-path half of property C02 ("five-stage pipeline = single-cycle"):
    an instruction that flows ALONE through the stages ID, EX, MEM, WB of the modelled five-stage
    pipeline has exactly the architectural effect of the single-cycle [behavior], for every supported
    instruction and every operand, register, memory-system and pc value.
